@@ -610,6 +610,39 @@ def long_shard(rk):
     return part
 
 
+def raw_shard(rk):
+    """Raw literals whose body ends in (or consists of) backslashes, followed in the same expression by another literal
+    in the same and in the other quote style: a raw literal ends at its own closing quote."""
+    part = runner.Part()
+    n = 0
+    bs = chr(92)
+    bodies = [bs, "a" + bs, bs + bs, bs + "n", "C:" + bs + "dir" + bs, bs + "x41" + bs, ""]
+    styles = [("r-dq", 'r"', '"', False), ("r-sq", "r'", "'", False), ("R-dq", 'R"', '"', False), ("r-tdq", 'r"""', '"""', False), ("r-tsq", "r'''", "'''", False),
+              ("br-dq", 'br"', '"', True), ("bR-sq", "bR'", "'", True)]
+    for sname, op, cl, is_bytes in styles:
+        for body in bodies:
+            lit_text = op + body + cl
+            follow = [('dq', '"a"'), ('sq', "'a'")] if not is_bytes else [('dq', 'b"a"'), ('sq', "b'a'")]
+            cases = [("alone", lit_text, None)]
+            for fname, f in follow:
+                cases += [(f"list-before-{fname}", f"[{lit_text}, {f}][0]", None), (f"list-after-{fname}", f"[{f}, {lit_text}][1]", None),
+                          (f"concat-{fname}", f"{lit_text} + {f}", "a"), (f"cond-{fname}", f"true ? {lit_text} : {f}", None)]
+            for cname, expr, suffix in cases:
+                o = celrun.evaluate(rk, expr)
+                part.case()
+                n += 1
+                part.outcome("raw-backslash:" + outcome.label(o))
+                value = body + (suffix or "")
+                want = ("bytes", value.encode("utf-8").hex()) if is_bytes else ("string", value)
+                got = (o[1], o[2]) if o[0] == "V" else outcome.short(o)
+                if got != want:
+                    part.violation("wrong-value" if o[0] == "V" else "rejected", f"{'bytes' if is_bytes else 'string'}:raw-literal-ending-in-backslash:{cname.split('-')[0]}:{rk}",
+                                   {"what": "raw", "runner": rk, "text": expr, "style": sname, "context": cname},
+                                   f"runner {rk}: {expr!r} ({sname}, {cname}): expected {want}, got {got}")
+    part.space(f"raw-backslash-literals:{rk}", n, n)
+    return part
+
+
 def run(ctx):
     litcodec.selftest()
     intarith.selftest()
@@ -643,6 +676,7 @@ def run(ctx):
         raise runner.HarnessError(f"{ctx.part.nontrivial + ctx.part.unspec} cases recorded, cardinalities sum to {total}")
     for rk in ("I", "C"):
         ctx.run_shards(long_shard, [rk])
+        ctx.run_shards(raw_shard, [rk])
     merge_runner_sigs(ctx.part)
     ctx.coverage_extra["cases"] = total
     ctx.coverage_extra["pinned_scenarios_validated"] = pinned
